@@ -101,7 +101,8 @@ where
                 x ^= x << 5;
                 x as u8
             }
-            1 => (i as u32).wrapping_mul(29).wrapping_add(x) as u8,
+            // (the i >> 8 and i >> 16 terms break the period of 256 bytes: data displaced by 256 or 65536 bytes differs)
+            1 => (i as u32).wrapping_mul(29).wrapping_add((i as u32 >> 8).wrapping_mul(7)).wrapping_add((i as u32 >> 16).wrapping_mul(3)).wrapping_add(x) as u8,
             _ => ((i as u32).wrapping_add(x) % 251) as u8 ^ 0x5a,
         })
         .collect();
